@@ -103,8 +103,9 @@ def main_c02(tier, seed):
     standard_proof_phase(rep, "C02", MODEL_FILES + ["Props/C02"])
     rng = random.Random(seed + 2)
     N = 300 if tier == "quick" else 24000
-    insts = [gen_instance(rng, nmax=10 if tier == "quick" else 16, tie_free=(i % 4 == 0)) for i in range(N)]
+    insts = [gen_instance(rng, nmax=10 if tier == "quick" else 16, tie_free=(i % 4 == 0), m=(2 if i % 3 == 2 else 0)) for i in range(N)]
     terms, expect, sts = [], [], []
+    semi_msgs = []
     for it in insts:
         rk = ranker_for(it)
         try:
@@ -115,6 +116,30 @@ def main_c02(tier, seed):
         exp = safe_dump(st, rk)
         terms.append(term_prim(it, rk)); expect.append(exp); sts.append((st, fst))
         rep.count_case(it.key(), it.n >= 3)
+        # the property also covers semi-supervised training: same prototypes (among the labeled samples), each keeping cost 0,
+        # no predecessor and its own label - with unlabeled samples, and with an EMPTY unlabeled set
+        if "error" not in st and len(terms) % 3 == 0 and it.X is not None and getattr(it, "Xarr", None) is None:
+            for nu_ in (0, min(2, it.m)):
+                its = Instance(it.kind, it.X, it.labels, it.D, nu_, it.m - nu_, it.metric)
+                try:
+                    _, sst = impl_semi_fit(its)
+                except Exception as ex:
+                    semi_msgs.append((its, "semi-supervised fit with %d unlabeled samples raised %r" % (nu_, ex))); continue
+                want = [q for q in range(it.n) if st["status"][q] == 1]
+                got = [q for q in range(it.n + nu_) if sst["status"][q] == 1]
+                msg = None
+                if got != want:
+                    msg = "semi-supervised prototypes %r differ from the class-crossing MST endpoints %r of the labeled samples" % (got, want)
+                else:
+                    for q in got:
+                        if sst["cost"][q] != 0 or sst["pred"][q] != -1 or sst["plabel"][q] != it.labels[q] or sst["label"][q] != it.labels[q]:
+                            msg = "prototype %d has cost %r, predecessor %d, label %d/%d after semi-supervised training with %d unlabeled samples" % (
+                                q, sst["cost"][q], sst["pred"][q], sst["plabel"][q], sst["label"][q], nu_); break
+                if msg:
+                    semi_msgs.append((its, msg))
+    for its, msg in semi_msgs[:3]:
+        d_ = its.desc(); d_["unlabeled"] = its.nu
+        rep.violation("prototype selection (semi-supervised): " + msg, d_, key="prototypes:semi")
     bad = corr(rep, "correspondence Model/Sup.find_prototypes vs SupervisedOPF._find_prototypes (keys, pred, status)", "C02", terms, expect, insts)
     rep.corr["find_prototypes"] = dict(cases=len(terms), disagreements=None if bad is None else len(bad), distribution=dist_stats(insts))
     nviol = 0
